@@ -68,3 +68,56 @@ def patched(obj, attr, new):
         yield
     finally:
         setattr(obj, attr, old)
+
+
+# ----------------------------------------------------------------------------- structural predicates
+def _from_scope_leaves(node, out):
+    """Leaves that end up in the same FROM clause as ``node`` (stop at Select = subquery boundary)."""
+    from lsst.daf.relation import BinaryOperationRelation, LeafRelation, MarkerRelation, UnaryOperationRelation, sql
+
+    match node:
+        case sql.Select():
+            return
+        case LeafRelation():
+            out.append(node.name)
+        case UnaryOperationRelation():
+            _from_scope_leaves(node.target, out)
+        case BinaryOperationRelation():
+            _from_scope_leaves(node.lhs, out)
+            _from_scope_leaves(node.rhs, out)
+        case MarkerRelation():
+            # a Materialization/Transfer with a payload is a table of its own
+            out.append(("marker", id(node)))
+
+
+def same_table_twice_in_from(rel) -> bool:
+    """True iff some Join node's FROM scope contains the same leaf table twice (would need aliasing)."""
+    from lsst.daf.relation import BinaryOperationRelation, Join
+
+    from . import walk
+
+    for n in walk.walk(rel):
+        if isinstance(n, BinaryOperationRelation) and isinstance(n.operation, Join):
+            names: list = []
+            _from_scope_leaves(n, names)
+            if len(set(names)) != len(names):
+                return True
+    return False
+
+
+def _rel_of(context):
+    rel = getattr(context, "rel", None)
+    if rel is None and isinstance(context, dict):
+        rel = context.get("rel")
+    return rel
+
+
+@matcher("same_table_twice_in_from")
+def _m_same_table(pid, v, context):
+    if v.get("kind") not in ("database-raised",):
+        return False
+    detail = v.get("detail", "")
+    if "OperationalError" not in detail or not ("ambiguous column name" in detail or "no such column" in detail):
+        return False
+    rel = _rel_of(context)
+    return rel is not None and same_table_twice_in_from(rel)
